@@ -472,3 +472,141 @@ def t_market_share():
                   ("m", "FCNAgent", "submit_orders_by_market"): FCN_BY_MARKET.handler()})
     obl, info = MS_SUBMIT.verify(specs=specs, loops=ms_loops())
     return {"obligations": obl, "info": [info]}
+
+
+# ----------------------------------------------------------------------------- FCNAgent.setup: every strategy parameter is drawn from ITS OWN configuration key (C20: the documented strategy uses the configured weights)
+def fcn_setup_task():
+    from .config import JSON_RANDOM
+    qual = "FCNAgent.setup"
+    KEYS = [("fundamentalWeight", "fundamental_weight", "real"), ("chartWeight", "chart_weight", "real"), ("noiseWeight", "noise_weight", "real"), ("noiseScale", "noise_scale", "real"),
+            ("timeWindowSize", "time_window_size", "int"), ("orderMargin", "order_margin", "real")]
+
+    def draw(ex, st, recv, pos, kw, node):
+        st = st.copy()
+        jv = kw.get("json_value", pos[0] if pos else None)
+        res = fresh(("real",), "drawn")
+        st.ghost["draws"] = st.ghost.get("draws", ()) + ((jv, res),)
+        return [(st, res)]
+    spec = FSpec(qual, props=("C20",), param_types={"settings": ("dict", ("str",), ("dyn",)), "accessible_markets_ids": ("list", ("int",))}, modifies=lambda st, a: ["*"],
+                 pre=lambda st, a: agent_setup_pre(st, a) + [("the strategy keys are configured", z3.And(*[z3.Select(st.dict_dom(a["settings"]), z3.StringVal(k)) for k, _f, _t in KEYS])),
+                                    ("marginType, if given, is a string (not null)", z3.Implies(z3.Select(st.dict_dom(a["settings"]), z3.StringVal("marginType")),
+                                                                                                   z3.And(dyn_is_str(z3.Select(st.dict_val(a["settings"]), z3.StringVal("marginType"))), z3.Not(dyn_is_none(z3.Select(st.dict_val(a["settings"]), z3.StringVal("marginType")))))))])
+    spec.may_raise = {"ValueError": lambda st, a: z3.BoolVal(True)}
+
+    def extra(ex, st0, s1, a, res):
+        s = a["settings"]; ag = a["self"]
+        draws = s1.ghost.get("draws", ())
+        val = lambda k: z3.Select(st0.dict_val(s), z3.StringVal(k))
+        def drawn_for(k):
+            hits = [r for jv, r in draws if jv is not None and jv.term is not None and jv.term.eq(val(k))]
+            return hits
+        for k, f, ty in KEYS:
+            hits = drawn_for(k)
+            if len(hits) != 1:
+                s1.oblige(f"trace:exactly one draw from the configured `{k}` (got {len(hits)})", z3.BoolVal(False), "trace"); continue
+            r = hits[0]
+            got = s1.read(ag, f)
+            if ty == "int":
+                fl, cl = FLOOR(r.term), CEIL(r.term)
+                want = z3.If(r.term >= 0, fl, cl)
+                s1.oblige(f"post:C20 {f} = int(draw from `{k}`)", got.term == want, "post")
+            else:
+                s1.oblige(f"post:C20 {f} = draw from `{k}`", to_real(got) == r.term, "post")
+        has_mr = z3.Select(st0.dict_dom(s), z3.StringVal("meanReversionTime"))
+        hits = drawn_for("meanReversionTime")
+        mr = s1.read(ag, "mean_reversion_time").term
+        if implied_(s1, has_mr):
+            s1.oblige("post:C20 mean_reversion_time = int(draw from `meanReversionTime`) when configured",
+                      mr == z3.If(hits[0].term >= 0, FLOOR(hits[0].term), CEIL(hits[0].term)) if len(hits) == 1 else z3.BoolVal(False), "post")
+        else:
+            s1.oblige("post:C20 mean_reversion_time defaults to the time window size", z3.Implies(z3.Not(has_mr), mr == s1.read(ag, "time_window_size").term), "post")
+        mt = z3.Select(st0.dict_val(s), z3.StringVal("marginType")); has_mt = z3.Select(st0.dict_dom(s), z3.StringVal("marginType"))
+        s1.oblige("post:C20 margin type: fixed unless `marginType` is \"normal\"",
+                  s1.read(ag, "margin_type").term == z3.If(z3.And(has_mt, dyn_str(mt) == z3.StringVal("normal")), 1, 0), "post")
+
+    @task(qual, props=["C20", "C18"], functions=[qual], replay="agents")
+    def t():
+        """FCNAgent.setup: each parameter of the strategy is the draw from its own configuration key (weights, noise scale, window, margin, mean reversion time, margin type)"""
+        specs = {("m", "Agent", "setup"): AGENT_SETUP.handler(), ("m", "JsonRandom", "random"): draw}
+        obl, info = spec.verify(specs=specs, extra_goals=extra)
+        return {"obligations": obl, "info": [info]}
+    return spec
+
+
+FCN_SETUP = fcn_setup_task()
+
+
+# ----------------------------------------------------------------------------- MarketMakerAgent.setup / ArbitrageAgent.setup: parameters from their own keys (C20)
+def agent_param_setup(qual, drawn, plain, extra_pre=None, extra_post=None):
+    """drawn: [(key, field, 'real'|'int', default or None)] parameters obtained through JsonRandom; plain: [(key, field, 'int'|'num', required)] parameters copied from the settings"""
+    def draw(ex, st, recv, pos, kw, node):
+        st = st.copy()
+        jv = kw.get("json_value", pos[0] if pos else None)
+        res = fresh(("real",), "drawn")
+        st.ghost["draws"] = st.ghost.get("draws", ()) + ((jv, res),)
+        return [(st, res)]
+    has = lambda st, s, k: z3.Select(st.dict_dom(s), z3.StringVal(k))
+    val = lambda st, s, k: z3.Select(st.dict_val(s), z3.StringVal(k))
+    spec = FSpec(qual, props=("C20",), param_types={"settings": ("dict", ("str",), ("dyn",)), "accessible_markets_ids": ("list", ("int",))}, modifies=lambda st, a: ["*"],
+                 pre=lambda st, a: agent_setup_pre(st, a) + (extra_pre(st, a) if extra_pre else []))
+    spec.may_raise = {"ValueError": lambda st, a: z3.BoolVal(True)}
+
+    def extra(ex, st0, s1, a, res):
+        s = a["settings"]; ag = a["self"]
+        draws = s1.ghost.get("draws", ())
+        for k, f, ty, dflt in drawn:
+            hits = [r for jv, r in draws if jv is not None and jv.term is not None and jv.term.eq(val(st0, s, k))]
+            present = has(st0, s, k)
+            got = s1.read(ag, f)
+            if implied_(s1, present):
+                if len(hits) != 1:
+                    s1.oblige(f"trace:exactly one draw from the configured `{k}` (got {len(hits)})", z3.BoolVal(False), "trace"); continue
+                r = hits[0].term
+                want = r if ty == "real" else z3.If(r >= 0, FLOOR(r), CEIL(r))
+                s1.oblige(f"post:C20 {f} = {'int of the ' if ty == 'int' else ''}draw from `{k}`", (to_real(got) == want) if ty == "real" else (got.term == want), "post")
+            elif implied_(s1, z3.Not(present)):
+                if dflt is None:
+                    s1.oblige(f"raises:a configuration without `{k}` is rejected", z3.BoolVal(False), "raises")
+                else:
+                    s1.oblige(f"post:C20 {f} defaults to {dflt} when `{k}` is not configured", got.term == dflt, "post")
+            else:
+                s1.oblige(f"trace:presence of `{k}` decided on every path", z3.BoolVal(False), "trace")
+        for k, f, ty, required in plain:
+            present = has(st0, s, k); v = val(st0, s, k)
+            got = s1.read(ag, f)
+            same = (got.term == dyn_int(v)) if ty == "int" else (to_real(got) == coerce(V(("dyn",), v), ("real",)))
+            if required:
+                s1.oblige(f"post:C20 {f} is the configured {k}", z3.And(present, same), "post")
+            else:
+                s1.oblige(f"post:C20 {f} is the configured {k} when given, else left as it was", z3.If(present, same, got.term == st0.read(ag, f).term), "post")
+        if extra_post:
+            for l, fml in extra_post(st0, s1, a):
+                s1.oblige("post:" + l, fml, "post")
+
+    @task(qual, props=["C20", "C18"], functions=[qual], replay="agents")
+    def t():
+        specs = {("m", "Agent", "setup"): AGENT_SETUP.handler(), ("m", "JsonRandom", "random"): draw}
+        obl, info = spec.verify(specs=specs, extra_goals=extra)
+        return {"obligations": obl, "info": [info]}
+    t.__doc__ = qual + ": every parameter of the strategy comes from its own configuration key"
+    return spec
+
+
+def _mm_pre(st, a):
+    s = a["settings"]
+    n2m = st.read(st.read(a["self"], "simulator"), "name2market")
+    tm = z3.Select(st.dict_val(s), z3.StringVal("targetMarket"))
+    return [("the target market, if it is a string, names a registered market", z3.Implies(z3.And(z3.Select(st.dict_dom(s), z3.StringVal("targetMarket")), dyn_is_str(tm)), z3.Select(st.dict_dom(n2m), dyn_str(tm))))]
+
+
+def _mm_post(st0, s1, a):
+    s = a["settings"]
+    n2m = st0.read(st0.read(a["self"], "simulator"), "name2market")
+    tm = z3.Select(st0.dict_val(s), z3.StringVal("targetMarket"))
+    return [("C20 the market maker's target is the market registered under the configured name", s1.read(a["self"], "target_market").term == z3.Select(st0.dict_val(n2m), dyn_str(tm)))]
+
+
+MM_SETUP = agent_param_setup("MarketMakerAgent.setup", [("netInterestSpread", "net_interest_spread", "real", None), ("orderTimeLength", "order_time_length", "int", 2)], [], _mm_pre, _mm_post)
+ARB_SETUP = agent_param_setup("ArbitrageAgent.setup", [], [("orderVolume", "order_volume", "int", True), ("orderThresholdPrice", "order_threshold_price", "num", True), ("orderTimeLength", "order_time_length", "int", False)],
+                              lambda st, a: [("the threshold, if given, is a JSON number", z3.Implies(z3.Select(st.dict_dom(a["settings"]), z3.StringVal("orderThresholdPrice")),
+                                                                                                        z3.Or(dyn_is_int(z3.Select(st.dict_val(a["settings"]), z3.StringVal("orderThresholdPrice"))), dyn_is_real(z3.Select(st.dict_val(a["settings"]), z3.StringVal("orderThresholdPrice"))))))])
